@@ -1,9 +1,36 @@
 """C03 — key-switching family preserves the plaintext within the predicted noise."""
+from props import ks_shared as K
+
 PROPS_VO = "Props/C03.vo"
 EXTRA_VO = ["Model/C03Run.vo"]
 PROFILES = ["release"]
-RULE = ("harness c03: real keys and ciphertexts built with the library at N in {8,16,32}; every record carries the exact secrets "
-        "(read through decryption), the input limbs and the key as dumped before preparation")
-ASSUMPTIONS = []
+RULE = ("harness c03: real secrets, keys and ciphertexts built with the library at N in {8,16,32} on FFT64Ref/Avx (radices 5..19) and "
+        "NTT120Ref/Avx (radices 5..45); every public entry point of the key-switching family: glwe/gglwe/lwe key-switch (in/out of place), "
+        "the 8 automorphism variants over every Galois element of (Z/2NZ)* for N <= 32, automorphism of automorphism keys, trace from every "
+        "start level, packing of slot subsets (N <= 16, every log_gap_out), lwe_from_glwe at every index, glwe_from_lwe, sample extraction, "
+        "a grid of gadget shapes on one encrypted message; ranks 1..3 in and out, dsize 1..4 with a_size not a multiple of dsize, dnum "
+        "smaller/equal/larger than needed, three-way radix mismatch, inputs with uniform / extreme / alternating / sparse digits, binary and "
+        "ternary secrets.  Level L1 (3001/3002): output limbs recomputed bit for bit by the extracted model from the input limbs and the key "
+        "dumped before preparation.  Level L2 (all): exact phases under the exact secrets (read through decryption), expected image, "
+        "deterministic envelope; each operation run twice from two garbage fills of its scratch space; re-run on the three other backends "
+        "inside the common magnitude domain (radices <= 17) and compared byte for byte; key rows of freshly encrypted keys (3090).  "
+        "distinct = distinct (op, params, inputs) lines")
+ASSUMPTIONS = [
+    "proof over exact products: DFT-domain objects denote exact integer polynomials (C07's bit-exact correspondence; the f64 FFT bound is not proved); "
+    "harness radices keep FFT64 inside its exact magnitude domain",
+    "key-row lemma (row r of a key encrypts s_in 2^-((r+1) dsize b) under s_out with |e| <= 20 * 2^-k) is a named Section hypothesis of the phase theorems; "
+    "it is checked on every freshly generated key by the oracle (code 3090), not proved for the key-encryption routine",
+    "per-column normalisation value facts are taken from C08 (hypothesis normalize_value_ok where used)",
+    "trace / packing / conversions take a scratch space larger than their declared tmp_bytes (the declared sizes are too small: C12's property)",
+    "glwe_packer (state machine) is not exercised; LWE key-switch and packing are checked at level L2 only",
+]
+TRUSTED = ["secret coefficients are read through glwe_decrypt of a crafted ciphertext (GLWESecret has no public accessor)",
+           "measured-noise statistics use the library's own glwe_noise and a transcription of var_noise_gglwe_product_v2 (supporting evidence only)"]
+
+
 def classify(record):
     return None
+
+
+def extra(ctx, ofails, notes):
+    return K.scan(ctx, ofails, notes, 3001)
